@@ -1,4 +1,4 @@
-"""C06 reference model and harness primitives shared by both parts.
+"""C06 reference model and harness primitives shared by all parts.
 
 Reference: distances on the sphere in longdouble, exact radius units and the
 comparison of an expected pair set with what GeoIndex.query returned; it uses
@@ -63,6 +63,11 @@ def split_radius(r):
 def unit_of(r):
     """The unit (first name of its group) of a radius written as a string."""
     return UNIT_GROUP[split_radius(r)[1]]
+
+
+def unit_key(r):
+    """Violation key of a failure that only the radius string `r` has."""
+    return ("radius-unit/%s/differs-from-the-same-length-in-km" % unit_of(r))
 
 
 def radius_km(r):
@@ -174,6 +179,24 @@ def _judge(pairs, distances, expected, metric):
     return None
 
 
+def reraise_watchdog(exc):
+    """The driver's shard watchdog raises its TimeoutError wherever the shard
+    happens to be; inside a guarded typhon call it still is the harness'
+    timeout (a harness error), not an exception of typhon."""
+    if isinstance(exc, TimeoutError) and str(exc).startswith("shard exceeded"):
+        raise exc
+
+
+def spelling_verdict(bad, bad_number, key):
+    """A radius in another spelling (unit string, numpy scalar) against the
+    same length given as a Python number of km, on the same index and query:
+    a failure they share has one root cause and is reported for the number;
+    one that only the spelling has gets `key`."""
+    if bad is None or bad_number is not None:
+        return None
+    return (key,) + bad[1:]
+
+
 def report(res, replay, bad, case):
     """Records a violation; the first ones of a key are re-executed first."""
     if res.vio_per_key.get(bad[0], 0) < res.MAX_PER_KEY and \
@@ -192,6 +215,7 @@ def evaluate(index, perm, expected, metric, qlat, qlon, r,
         else:
             got = index.query(qlat, qlon, r, return_distance=False)
     except Exception as e:
+        reraise_watchdog(e)
         got = e
     only = list(expected) if len(expected) == 1 else None
     at_00 = bool(only) and only[0][1] == 0 and \
